@@ -90,6 +90,14 @@ Definition Y (s : kstate) : Prop :=
   yview (st_rounds s) (st_replayed s) (k_vot s) /\ yview (st_rounds s) (st_replayed s) (k_nxt s).
 
 Definition kok (s : kstate) : Prop := kok0 s /\ Y s.
+
+(** the voting / next-round view of [s] is exactly what loading the round store gives *)
+Definition loadedview (rs : list (N * N * rentry)) (rp : list hdr) (v : view) : Prop :=
+  to_full_map KPrevote (v_h v) (v_r v) (vs_keys (v_vals v)) (re_pv (rs_entry rs (v_h v) (v_r v))) = Ok (v_pv v) /\
+  to_full_map KPrecommit (v_h v) (v_r v) (vs_keys (v_vals v)) (re_pc (rs_entry rs (v_h v) (v_r v))) = Ok (v_pc v) /\
+  v_phs v = round_phs rs rp (v_h v) (v_r v).
+Definition loadedv (s : kstate) : Prop :=
+  loadedview (st_rounds s) (st_replayed s) (k_vot s) /\ loadedview (st_rounds s) (st_replayed s) (k_nxt s).
 Definition ne_view (v : view) : Prop := ne_pmap (v_pv v) /\ ne_pmap (v_pc v).
 Definition ne_state (s : kstate) : Prop := ne_view (k_com s) /\ ne_view (k_vot s) /\ ne_view (k_nxt s).
 Definition n1_view (rs : list (N * N * rentry)) (v : view) : Prop :=
@@ -191,6 +199,16 @@ Proof.
     { destruct keys; [destruct entries; [exact E|discriminate]|exact E]. }
     split; [apply (to_full_entries_keys_nodup _ _ _ _ _ _ E')|]. right. exists pkh, entries. split; [reflexivity|exact E'].
   - intros E; inversion E; subst. split; [split; [constructor|intros t p []]|left; reflexivity].
+Qed.
+
+Lemma load_loadedview rs rp h r vs v cp :
+  load_initial_view_r rs rp h r vs = Ok v -> loadedview rs rp (bump (with_pcp v cp)).
+Proof.
+  unfold load_initial_view_r, bind.
+  destruct (to_full_map KPrevote h r (vs_keys vs) _) as [pv|] eqn:Hpv; [|discriminate].
+  destruct (to_full_map KPrecommit h r (vs_keys vs) _) as [pc|] eqn:Hpc; [|discriminate].
+  intros E; inversion E; subst. clear E. unfold loadedview.
+  cbn [bump with_pcp v_h v_r v_vals v_phs v_pv v_pc]. repeat split; assumption.
 Qed.
 
 Lemma load_yview rs rp h r vs v cp :
@@ -325,7 +343,7 @@ Lemma loaded_state_ok com chdr vot0 nxt0 cpv :
   end ->
   let s0 := mk_k ih ivs com (dressed vot0 cpv) (dressed nxt0 cpv) chdr (sr_nhr st) (sr_hdrs st) (sr_rounds st)
                  (sr_replayed st) vals log evs in
-  INV ih ivs s0 /\ tinv s0 /\ comvals ih ivs s0 /\ ne_state s0 /\ n1 s0 /\ kok s0.
+  INV ih ivs s0 /\ tinv s0 /\ comvals ih ivs s0 /\ ne_state s0 /\ n1 s0 /\ kok s0 /\ loadedv s0.
 Proof.
   intros Lv Ln Hvs Hch Hcr Hca Hcne Hexp Hshape s0. subst s0.
   destruct (load_facts _ _ _ _ _ _ Lv) as (V1&V2&V3&V4&V5&V6&V7&V8).
@@ -387,10 +405,13 @@ Proof.
     - eapply to_full_map_nonempty_stored; [exact V8|exact Hne].
     - eapply to_full_map_nonempty_stored; [exact N8|exact Hne]. }
   split.
-  { unfold kok0. proj. intros p Hp.
-    destruct (Hgoodp p Hp) as (_&_&_&(_&_&_&F7)&_). exact F7. }
-  unfold Y. cbn [st_rounds st_replayed k_vot k_nxt]. unfold dressed.
-  split; eapply load_yview; eassumption.
+  { split.
+    - unfold kok0. proj. intros p Hp.
+      destruct (Hgoodp p Hp) as (_&_&_&(_&_&_&F7)&_). exact F7.
+    - unfold Y. cbn [st_rounds st_replayed k_vot k_nxt]. unfold dressed.
+      split; eapply load_yview; eassumption. }
+  unfold loadedv. cbn [st_rounds st_replayed k_vot k_nxt]. unfold dressed.
+  split; eapply load_loadedview; eassumption.
 Qed.
 
 End Loaded.
